@@ -58,6 +58,8 @@ _CTL_ASSUME = ["single event loop (handlers run sequentially)", "map iteration o
 # C19 also over the S-ctl stream: messages carrying several usage reports with different triggers (the flag octets of each
 # report on the wire against the word the data plane produced it with)
 PROPS["C19"]["streams"].append(_ctl(13, "urr", cases=12, tcases=120))
+PROPS["C19"]["trusted_base"] = PROPS["C19"]["trusted_base"] + _CTL_TB + [
+    "external predicate (Driver/CtlProps.lean): the Usage Report Trigger octets of every usage report in a response / Session Report Request decode to the word the reference data plane produced that report with (TERMR / IMMER apart)"]
 
 PROPS["C04"] = dict(
     module="UpfVerif.Props.C04",
@@ -320,7 +322,9 @@ PROPS["C13"] = dict(
     trusted_base=["model Model/Buf.lean of the buffering path across internal/forwarder/buffnetlink/server.go, internal/pfcp/report.go + node.go (Push/Pop/Close/RemovePDR), "
                   "internal/forwarder/gtp5g.go applyAction/WritePacket over the data-plane tables, hand-written, tied by the S-full buffering stream",
                   "simulated gtp5g kernel of the harness (GET_FAR / GET_PDR / GET_QER answers, FAR_RELATED_TO_PDR ascending), loopback UDP; "
-                  "Spec/GtpuRef.lean (independent TS 29.281 decoder) for the datagram contents (C14)"],
+                  "Spec/GtpuRef.lean (independent TS 29.281 decoder) for the datagram contents (C14)",
+                  "for 'towards the owning SMF' across several SMFs and takeovers: " + _CTL_TB[0] + "; external predicate (Driver/CtlProps.lean): a downlink-data "
+                  "notification goes to the peer that owns the session by the requests seen so far"],
     assumptions=["'the FAR's peer' = the outer header creation the data plane holds for the FAR when the switch happens (the code reads the FAR back before applying the update); "
                  "the stricter reading (the parameters carried by the same Update FAR) is not claimed",
                  "the data plane holds one PDR per (session, id) (hypothesis of applyAction_forw / _drop; maintained by establish / addPdr in the model)",
